@@ -920,8 +920,8 @@ theorem opSetRelations_valid (run : ProbeRunner) (p : Path) {w : World} {fl : Li
     (hfew : w.tables.length < maxU32) (hrows : w.entities.length + 1 < 2 ^ 32)
     {w' : World} (hok : opSetRelations run p e mapperIds rels w = .ok () w') :
     ∀ (r : RelID), r ∈ rels → r.target.isZero = true ∨ w.alive r.target = true := by
-  have hpre : preCheck p mapperIds rels w = .ok () w := by
-    rcases preCheck_cases p mapperIds rels w with h1 | ⟨k, h1⟩
+  have hpre : preCheck p.setRelCheck mapperIds rels w = .ok () w := by
+    rcases preCheck_cases p.setRelCheck mapperIds rels w with h1 | ⟨k, h1⟩
     · exact h1
     · simp [opSetRelations, bind, M.bind, h1] at hok
   simp only [opSetRelations, bind, M.bind, hpre] at hok
@@ -938,22 +938,26 @@ theorem opSetRelations_spec (run : ProbeRunner) (p : Path) {w : World} {fl : Lis
     (hfew : w.tables.length < maxU32) (hrows : w.entities.length + 1 < 2 ^ 32)
     {w' : World} (hok : opSetRelations run p e mapperIds rels w = .ok () w') :
     SetRelPost w fl e rels w' := by
-  have hpre : preCheck p mapperIds rels w = .ok () w := by
-    rcases preCheck_cases p mapperIds rels w with h1 | ⟨k, h1⟩
+  have hpre : preCheck p.setRelCheck mapperIds rels w = .ok () w := by
+    rcases preCheck_cases p.setRelCheck mapperIds rels w with h1 | ⟨k, h1⟩
     · exact h1
     · simp [opSetRelations, bind, M.bind, h1] at hok
   simp only [opSetRelations, bind, M.bind, hpre] at hok
   exact setRelationsCore_spec run h hl hno h2 hnf ha hin hne hnd hhas htin hfew hrows hok
 
-/-- **rejection** (typed paths): `SetRelations` naming a dead target is refused with
-    `deadTarget`, the world unchanged -/
-theorem opSetRelations_deadTarget (run : ProbeRunner) (p : Path) (hp : p ≠ .unsafe_) (e : Ent)
+/-- **rejection** (every path, since the repair of the `Unsafe` API): `SetRelations` naming a
+    dead target is refused with `deadTarget`, the world unchanged.  The relations must name
+    relation components — and, through `MapN` (`.typed`) only, components of the mapper —,
+    otherwise an earlier relation in the list may be refused for that reason first. -/
+theorem opSetRelations_deadTarget (run : ProbeRunner) (p : Path) (e : Ent)
     (mapperIds : List Comp) (rels : List RelID) (w : World)
     (hv : ∀ (r : RelID), r ∈ rels →
-      w.isRelComp r.comp = true ∧ (Mask.ofList mapperIds).get r.comp = true)
+      w.isRelComp r.comp = true ∧ (p = .typed → (Mask.ofList mapperIds).get r.comp = true))
     (hd : ∃ (r : RelID), r ∈ rels ∧ r.target.isZero = false ∧ w.alive r.target = false) :
     opSetRelations run p e mapperIds rels w = .panic .deadTarget w := by
-  simp only [opSetRelations, bind, M.bind, preCheck_deadTarget p hp mapperIds w rels hv hd]
+  have := preCheck_deadTarget' p.setRelCheck mapperIds w rels
+    (fun r hr => ⟨(hv r hr).1, fun hp => (hv r hr).2 (by cases p <;> first | rfl | exact absurd rfl hp)⟩) hd
+  simp only [opSetRelations, bind, M.bind, this]
 
 /-! ## 5. totality: a valid `setRelations` never fails -/
 
@@ -998,6 +1002,7 @@ theorem relGet_total {w : World} {a tid : Nat} {ts' : List Ent} (hR : RelInv w)
     have hlenA : (w.arch a).numRel ≤ (r0 :: rest).length := by rw [hAe, hnum, hall]; exact Nat.le_refl _
     have htotal : ∃ (r : Option Nat), getTable a (r0 :: rest) w = .ok r w := by
       apply getTable_rel_total hrelA hlenA hcolA
+        (by rw [← hall]; exact colRels_comps_nodup hnd _ _)
       intro ts hf t ht
       rw [hAe] at hf
       have hact := ((hR.rinv a A hA).listed (by rw [← i2]; exact c2) hf ht).1
